@@ -1615,11 +1615,13 @@ class ContractionTree:
 
         # make sure all flops and size information has been populated
         tree.contract_stats()
-        # ... including the involved indices, which are not cached yet when
-        # legs, flops and size were supplied directly on node creation, and
-        # which can't be recomputed once the leaves have been reset below
+        # ... including the involved indices and legs, which are not cached
+        # yet when legs, flops or size were supplied directly on node creation,
+        # and which can't be recomputed once the leaves have been reset and
+        # the index has been marked as sliced below
         for node in tree.children:
             tree.get_involved(node)
+            tree.get_legs(node)
 
         d = tree.size_dict[ind]
         if project is None:
